@@ -258,3 +258,51 @@ func VerifC06_AmongHealthy() {
 	rt.Assert(atomic.LoadInt32(m.workerCnt) == 0, "among/counter-zero")
 	rt.Reach("among-end")
 }
+
+// a lifecycle routine panicking during a management pass: contained, reported,
+// and the pass returns an error (also when the other phase of the pass succeeds)
+func VerifC06_ManagementPass() {
+	rt.NoTimers()
+	rt.SchedYieldOnly(true)
+	SetStdErrReporting(false)
+	modules = make(map[string]*Module)
+	modulesLocked.UnSet()
+	moduleMgmtEnabled.UnSet()
+	shutdownFlag.UnSet()
+	ch := make(chan *ModuleError, 8)
+	SetErrorReportingChannel(ch)
+	kind := rt.Choice("panic", c06Kinds)
+	panicInStop := rt.Bool("panic-in-stop")
+	armed := false
+	victim := Register("victim", nil, func() error {
+		if armed && !panicInStop {
+			c06Panic(kind)
+		}
+		return nil
+	}, func() error {
+		if armed && panicInStop {
+			c06Panic(kind)
+		}
+		return nil
+	})
+	healthy := Register("healthy", nil, func() error { return nil }, func() error { return nil })
+	moduleMgmtEnabled.Set()
+	rt.Assert(initDependencies() == nil && prepareModules() == nil, "mgmtpass/setup")
+	// first pass: the module whose stop will panic is online
+	victim.SetEnabled(panicInStop)
+	healthy.SetEnabled(!panicInStop)
+	rt.Assert(ManageModules() == nil, "mgmtpass/first-pass-ok")
+	// second pass: the victim is stopped (or started) and panics; the other
+	// module is started (or stopped) successfully in the same pass
+	armed = true
+	victim.SetEnabled(!panicInStop)
+	healthy.SetEnabled(panicInStop)
+	err := ManageModules()
+	rt.Assert(err != nil, "mgmtpass/panic-returns-error")
+	rt.Assert(len(ch) >= 1, "mgmtpass/panic-reported")
+	rt.Assert(victim.Status() != StatusOnline, "mgmtpass/panicked-module-not-online")
+	armed = false
+	shutdownFlag.Set()
+	_ = stopModules()
+	rt.Reach("mgmtpass-end")
+}
